@@ -195,3 +195,137 @@ def rule_coins(S, res):
                         where(b, bi), key="R4.b|%s|%s" % (short, tail))
     res.floor("challenge_draw_sites", n_draw, 1)
     res.count("generator_clone_sites", n_clone)
+
+
+def rule_bind_id(S, res):
+    """R3.bind-id: where the acceptance of opened values is *symmetric* - the own committed value and
+    the peers' opened values are folded together and the fold is only compared with the constant 0
+    (Pi_LaAND) or becomes the result without any check (coin tossing) - a peer that mirrors the own
+    commitment and then the own opening cancels the own contribution.  There the committed bytes must
+    contain the id of the committing party (data, not an index) and the bytes an opening is checked
+    against must contain the id of the party whose commitment is opened."""
+    fg = S.fg
+    n_sym = 0
+    def is_index_operand(e):
+        """edge from the *index* of an indexing operation (built-in or Index::index / get) to its result"""
+        if e.kind == "index":
+            return True
+        if e.kind == "call" and isinstance(e.info, dict) and e.info.get("arg") == 1:
+            nm = (e.info.get("names") or [""])[-1].rsplit("::", 1)[-1]
+            return nm in ("index", "index_mut", "get", "get_mut", "get_unchecked")
+        return False
+    BYTES = {"to_be_bytes", "to_le_bytes", "to_ne_bytes", "copy_from_slice", "clone_from_slice", "extend_from_slice", "extend", "push", "concat",
+             "to_vec", "into", "from", "try_into", "deref", "deref_mut", "index", "index_mut", "as_slice", "as_mut_slice", "as_ref", "as_mut", "borrow",
+             "borrow_mut", "clone", "to_owned", "unwrap", "expect", "get", "get_mut", "as_bytes", "to_string", "iter", "copied", "cloned", "collect", "chain"}
+
+    def data_edge(e):
+        """value-preserving edges only: the id has to be *part of* the bytes, not merely influence which
+        values are computed (loop filters, iterator adaptors, closures)"""
+        if is_index_operand(e):
+            return False
+        if e.kind in ("copy", "ref", "cast", "agg", "base2field", "field2whole", "mutarg", "mutarg2", "alias", "alias_fb", "lcall", "callarg", "ret", "upvar"):
+            return True
+        if e.kind == "call" and isinstance(e.info, dict):
+            nm = (e.info.get("names") or [""])[-1]
+            return nm.rsplit("::", 1)[-1] in BYTES or nm.startswith("polytune::")
+        return False
+    for fn, la, lb, why in ORDER:
+        A = site_in(S, fn, la)
+        B = site_in(S, fn, lb)
+        if not A or not B:
+            continue
+        owner = A[0].body.owner
+        fam = lambda x: x[0] != "F" and fg.bodies[x[0]].owner == owner
+        inst = "%s|%s" % (fn.rsplit("::", 1)[-1], la)
+        # own reveal payload and what is computed from it
+        FP = set()
+        for sb in B:
+            if not (PRIMS[sb.prim][1]):
+                continue
+            FP |= set(fg.forward(fg.operand_nodes(sb.bk, sb.term["args"][-1]), node_ok=fam, edge_ok=lambda e: e.kind != "shape", local=True).keys())
+            pb = fg.backward(fg.operand_nodes(sb.bk, sb.term["args"][-1]), node_ok=lambda x: x[0] == sb.bk, edge_ok=lambda e: e.kind in ("ref", "copy", "cast") or (e.kind == "call" and (e.info or {}).get("names") and e.info["names"][-1].rsplit("::", 1)[-1] in ("deref", "as_slice", "as_ref", "borrow")))
+            FP |= set(fg.forward(list(pb), node_ok=fam, edge_ok=lambda e: e.kind != "shape", local=True).keys())
+        comps_b = {x for x in S.comp.get(lb, {}) if x[0] != "F" and fam(x)}
+        if not FP or not comps_b:
+            continue
+        symmetric = None
+        FC = FPd = None
+        for c in S.checks():
+            if c.body.owner != owner or not ("ZERO" in c.ing or "LIT:0" in c.ing):
+                continue
+            if (set(c.cond_nodes) & FP) and (set(c.comp) & comps_b):
+                symmetric = ("the fold of the own and the opened values is only compared with 0", c.where())
+        for k, b in fg.bodies.items():
+            if b.owner != owner:
+                continue
+            for bi, t in b.calls():
+                if any(x.endswith("SeedableRng::from_seed") or x.endswith("::from_seed") for x in callee_names(t)) and t["args"] and t["args"][0]["k"] != "const":
+                    back = fg.backward(fg.operand_nodes(k, t["args"][0]), node_ok=fam, local=True)
+                    if FC is None:
+                        FC = set(fg.forward(list(comps_b), node_ok=fam, edge_ok=lambda e: e.kind != "shape", local=True, deep=True).keys())
+                        FPd = set(fg.forward(list(FP), node_ok=fam, edge_ok=lambda e: e.kind != "shape", local=True, deep=True).keys())
+                    near = set(fg.backward(fg.operand_nodes(k, t["args"][0]), node_ok=fam, edge_ok=lambda e: e.kind in ("copy", "ref")))
+                    # (the fold may happen through a `&mut` element handed to a closure: `*a ^= *b` in for_each)
+                    through_mut = any(S.node_ty(x).startswith("&mut") for x in (FPd & FC))
+                    if ((set(back) & FP) and (set(back) & comps_b)) or ((near & FPd) and ((near & FC) or through_mut)):
+                        symmetric = ("the fold of the own and the opened values becomes a generator seed without any check", where(b, bi))
+        if not symmetric:
+            res.ok("R3.bind-id", inst, "", "opened values are not accepted through a symmetric fold with the own value (no mirror attack surface)")
+            continue
+        n_sym += 1
+        # own index: the `i` argument of the channel primitives of this function
+        own = set()
+        for s_ in A + B:
+            o = s_.term["args"][1]
+            if o["k"] != "const":
+                own |= {x for x in fg.backward(fg.operand_nodes(s_.bk, o), node_ok=fam, edge_ok=lambda e: e.kind in ("copy", "ref", "upvar", "base2field", "field2whole"))}
+        probs = []
+        n_commit = n_open = 0
+        for k, b in fg.bodies.items():
+            if b.owner != owner:
+                continue
+            for bi, t in b.calls():
+                cn = callee_names(t)
+                if "polytune::mpc::faand::commit" in cn and bi in b.live_blocks():
+                    n_commit += 1
+                    back = fg.backward(fg.operand_nodes(k, t["args"][0]), node_ok=fam, edge_ok=data_edge, local=True)
+                    if not (set(back) & own):
+                        probs.append((b, bi, "the committed bytes do not contain the id of the committing party"))
+                if "polytune::mpc::faand::open_commitment" in cn and bi in b.live_blocks():
+                    n_open += 1
+                    b0 = fg.backward(fg.operand_nodes(k, t["args"][0]), node_ok=fam, edge_ok=lambda e: True, local=True)
+                    idx = set()
+                    for x in b0:
+                        for e in fg.inn.get(x, ()):
+                            if is_index_operand(e) and fam(e.src):
+                                idx |= set(fg.backward([e.src], node_ok=fam, edge_ok=lambda e2: e2.kind in ("copy", "ref", "cast", "upvar", "base2field", "field2whole")))
+                    b1 = fg.backward(fg.operand_nodes(k, t["args"][1]), node_ok=fam, edge_ok=data_edge, local=True)
+                    bound = bool(set(b1) & idx)
+                    if not bound:
+                        # via a per-party table: the bytes are read from C[k] (k also selects the commitment)
+                        # and C[kk] was filled with data containing kk
+                        plain = lambda e2: e2.kind in ("copy", "ref", "cast", "upvar", "base2field", "field2whole")
+                        cs_ = {x[1] for x in fg.backward(fg.operand_nodes(k, t["args"][1]), node_ok=lambda x: x[0] == k, edge_ok=secmod.struct_edge)}
+                        read_by_k = False
+                        filled_with_own_index = False
+                        for cbi, ct in b.calls():
+                            cn2 = callee_names(ct)
+                            tl = cn2[-1].rsplit("::", 1)[-1] if cn2 else ""
+                            if tl in ("index", "index_mut") and len(ct["args"]) == 2 and ct["args"][0]["k"] != "const" and ct["args"][1]["k"] != "const" and root_local(b, ct["args"][0]) in cs_:
+                                ix = set(fg.backward(fg.operand_nodes(k, ct["args"][1]), node_ok=fam, edge_ok=plain))
+                                if tl == "index" and (ix & idx):
+                                    read_by_k = True
+                                if tl == "index_mut" and (ix & set(b1)):
+                                    filled_with_own_index = True
+                        bound = read_by_k and filled_with_own_index
+                    if not bound:
+                        probs.append((b, bi, "the bytes the commitment is opened against do not contain the id of the party that sent it"))
+        if not n_commit or not n_open:
+            res.bad("R3.bind-id", inst, "cannot locate the commit / open_commitment calls of %s" % fn)
+        elif probs:
+            b, bi, what = probs[0]
+            res.bad("R3.bind-id", inst, "%s, although %s (%s): a peer that mirrors the own commitment and then the own opening cancels the own contribution" % (what, symmetric[0], symmetric[1]), where(b, bi),
+                    key="R3.bind-id|%s|%s" % (fn.rsplit("::", 1)[-1], la))
+        else:
+            res.ok("R3.bind-id", inst, symmetric[1], "%s; %d commit(s) contain the own party id and %d opening(s) the sender's id" % (symmetric[0], n_commit, n_open))
+    res.need("R3.bind-id", "symmetric_commit_reveal_rounds", n_sym, 3, "commit/reveal rounds whose opened values are accepted through a symmetric fold (coin tossing x2, Pi_LaAND)")
